@@ -14,7 +14,12 @@ code -> spec: seeded random dumps: assignments in every quoting style bash emits
               name=$'..', name="..", name=([0]=".." ..) ) with values full of quotes, braces, $, #,
               newlines, non-ASCII; functions built from a bank of bodies with braces in quotes,
               parameter expansions, here-documents, case arms, comments, arithmetic, nested functions;
-              random name patterns incl. near misses (prefix / suffix of a present name).
+              random name patterns incl. near misses (prefix / suffix of a present name, cut at a random place).
+              Names (opaque to the spec) are rendered from pools of identifiers that have shell keywords /
+              declaration builtins as prefixes or ARE such words (function_exists, functionx, declare_y,
+              export1, local_z, a variable called function ...); bash itself chooses the definition style
+              (`name ()` for identifiers, `function my-f ()` for other names).  One dump in four / five has
+              no final newline (a dump captured with $(...) or stripped).
 Judge       : FilterEnv_Trace -- clauses RemovedStillDefined, KeptMissing, KeptBodyChanged,
               ExtraDefinition, NoStrayBytes, OutputIsKeptText, SourcesCleanly, FilterRuns.
 Trust       : bash encodes (declare -p / ${v@Q} / ${v@A} / declare -f) and decodes (source, declare -p/-f);
@@ -220,12 +225,13 @@ def gen_dumps(cases, scratch):
         inp.append(tok("END"))
     out, err = run_bash(GEN, b"".join(inp), scratch, 600)
     f = out.split(b"\0")
-    res, k, cur = {}, 0, None
+    res, k, cur, cur_id, bad = {}, 0, None, None, {}
     while k < len(f) - 1:
         t = f[k]
         if t == b"CASE":
             cur = []
-            res[int(f[k + 1])] = cur
+            cur_id = int(f[k + 1])
+            res[cur_id] = cur
             k += 2
         elif t == b"D":
             kind, sub, name, n = f[k + 1].decode(), f[k + 2].decode(), f[k + 3].decode(), int(f[k + 4])
@@ -234,12 +240,17 @@ def gen_dumps(cases, scratch):
             cur.append(dict(kind=kind, name=name, body=(sub,) + fields, chunk=chunk))
             k += 6 + n
         elif t == b"BADFUNC":
-            raise tlc.MachineryError(f"bash rejected generated function {f[k + 1]!r}")
+            bad.setdefault(cur_id, set()).add(f[k + 1].decode())  # a name bash refuses: not part of any dump
+            k += 2
         elif t == b"ENDCASE":
             k += 1
         else:
             raise tlc.MachineryError(f"dump generator: unexpected token {t[:40]!r} (stderr {err[-300:]!r})")
     for c in cases:
+        if c["id"] in bad:
+            if c.get("src") != "random":
+                raise tlc.MachineryError(f"bash rejected generated function(s) {sorted(bad[c['id']])}")
+            c["defs"] = [d for d in c["defs"] if not (d["kind"] == "func" and d["name"] in bad[c["id"]])]
         if len(res.get(c["id"], ())) != len(c["defs"]):
             raise tlc.MachineryError(f"dump generator lost definitions of case {c['id']}: {err[-300:]!r}")
     return res
@@ -304,6 +315,28 @@ def cut(out_text, chunks):
     return idx, residue
 
 
+# Identifier pools.  Names are opaque to the spec; the lexer however looks for the words `function`,
+# for `=`, blanks and parentheses, so the pools hold names that have shell keywords / declaration
+# builtins as PREFIXES (function_exists, functionx, declare_y, export1, local_z ...), names that ARE such
+# words (legal for variables), and names bash can only write in keyword style (`function my-f ()`).
+VAR_WORDS = ["V", "v_", "_x", "Pk9", "function_v", "functionv", "functions", "function", "declare_y", "declare", "export1",
+             "export", "local_z", "local", "readonly_r", "typeset_t", "if_x", "case_c", "done1", "fi_", "esac2", "in_",
+             "select_s", "time_t", "then_x", "do_it", "for_x", "while1", "unset_u", "eval_e", "source_s", "let_l"]
+FUNC_WORDS = ["f_", "pkg-", "my:", "src_", "function_exists", "functionx", "functions_sh", "function-x", "function_",
+              "exists", "declare_f", "export_fn", "local_fn", "if_f", "case_f", "do_f", "done_f", "select_f", "time_f",
+              "in_f", "then-f", "fi_f", "esac_f", "x"]
+# renderings of the abstract names of FilterEnv_Export (va vb both / fa fb both / ghost)
+NAME_POOLS = [
+    dict(v=dict(va="va", vb="vb", both="both", ghost="ghost"), f=dict(fa="fa", fb="fb", both="both", ghost="ghost")),
+    dict(v=dict(va="function_v", vb="declare_y", both="export1", ghost="v"),
+         f=dict(fa="function_exists", fb="local_z", both="export1", ghost="exists")),
+    dict(v=dict(va="functionv", vb="local1", both="functions", ghost="function"),
+         f=dict(fa="functionx", fb="declare_f", both="functions", ghost="x")),
+    dict(v=dict(va="export", vb="readonly_r", both="typeset_t", ghost="export_"),
+         f=dict(fa="function-x", fb="if_f", both="typeset_t", ghost="function")),
+]
+
+
 def rand_value(r_):
     ln = r_.choice([0, 1, 2, 3, 5, 9, 20])
     return "".join(r_.choice(VALUE_ALPHABET) for _ in range(ln))
@@ -351,21 +384,41 @@ def design_runs(ck, out):
         out.extend(ex.map(one, jobs))
 
 
+INTERNAL = {"tok", "src", "cnt", "file", "now", "base"}  # variables of the helper scripts
+
+
+def near_misses(r_, names):
+    """Names that are NOT the given ones but share a prefix / suffix with them (a cut at a random place,
+    e.g. `exists` for function_exists) or extend them."""
+    out = []
+    for n in names:
+        k = r_.randint(1, max(1, len(n) - 1))
+        out += [n + r_.choice("x_1"), r_.choice("x_") + n, n[k:], n[:k]]
+    return [x for x in out if x and x not in names and x[0] not in "0123456789-:" and "=" not in x]
+
+
 def random_case(r_, cid):
     nv, nf = r_.randint(0, 6), r_.randint(0, 5)
-    stem = r_.choice(["V", "v_", "_x", "Pk9"])
-    vn = [f"{stem}{k}" for k in range(nv)]
-    fn = [r_.choice(["f_", "pkg-", "my:", "src_"]) + str(k) for k in range(nf)]
-    near = [n + "x" for n in vn[:1]] + ["x" + n for n in vn[1:2]] + [n[:-1] for n in vn[2:3] if len(n) > 1]
-    nearf = [n + "_" for n in fn[:1]] + [n[1:] for n in fn[1:2]]
-    vpool, fpool = vn + near + ["ghost"], fn + nearf + ["ghost"]
+
+    def pick(words, k):
+        w = r_.choice(words)
+        return w + (str(k) if len(w) < 3 else r_.choice(["", "", str(k)]))
+
+    vn = sorted({pick(VAR_WORDS, k) for k in range(nv)})
+    fn = sorted({pick(FUNC_WORDS, k) for k in range(nf)})
+    near, nearf = near_misses(r_, vn), near_misses(r_, fn)
+    # near misses that are also DEFINED: valid, harmless names only (a purely alphabetic function name could
+    # be a reserved word or shadow a builtin the helper scripts use)
+    present_v = sorted(set(vn + [n for n in near if r_.random() < 0.25 and n.replace("_", "a").isalnum()
+                                 and len(n) >= 3 and n not in INTERNAL and not n.startswith("__")]))
+    present_f = sorted(set(fn + [n for n in nearf if r_.random() < 0.25 and not n.isalpha() and len(n) >= 3
+                                 and not n.startswith("__")]))
+    vpool, fpool = sorted(set(present_v + near + ["ghost"])), sorted(set(present_f + nearf + ["ghost"]))
     vnames = r_.sample(vpool, r_.randint(0, min(4, len(vpool))))
     fnames = r_.sample(fpool, r_.randint(0, min(4, len(fpool))))
-    present_v = vn + [n for n in near if r_.random() < 0.5]
-    present_f = fn + [n for n in nearf if r_.random() < 0.5]
-    return dict(id=cid, defs=mk_defs(r_, sorted(set(present_v)), sorted(set(present_f))),
+    return dict(id=cid, defs=mk_defs(r_, present_v, present_f),
                 vnames=vnames, fnames=fnames, vwhite=bool(vnames) and r_.random() < 0.4,
-                fwhite=bool(fnames) and r_.random() < 0.4, src="random")
+                fwhite=bool(fnames) and r_.random() < 0.4, final_newline=r_.random() < 0.75, src="random")
 
 
 def run(ck):
@@ -385,7 +438,8 @@ def run(ck):
     cases = []
     if ck.replay_case:
         d = ck.replay_case["detail"]
-        cases.append(dict(id=0, defs=d["input"], vnames=d["vnames"], fnames=d["fnames"], vwhite=d["vwhite"], fwhite=d["fwhite"], src="replay"))
+        cases.append(dict(id=0, defs=d["input"], vnames=d["vnames"], fnames=d["fnames"], vwhite=d["vwhite"], fwhite=d["fwhite"],
+                          final_newline=d.get("final_newline", True), src="replay"))
     else:
         design, th = [], threading.Thread(target=lambda: design_runs(ck, design), daemon=True)
         th.start()
@@ -396,8 +450,10 @@ def run(ck):
         else:
             ck.exhaustive = True
         for c in exported:
-            cases.append(dict(id=len(cases), defs=mk_defs(r_, c["vars"], c["funcs"]), vnames=c["vnames"], fnames=c["fnames"],
-                              vwhite=c["vwhite"], fwhite=c["fwhite"], src="export"))
+            pool = NAME_POOLS[len(cases) % len(NAME_POOLS)]  # rendering of the spec's opaque names
+            cases.append(dict(id=len(cases), defs=mk_defs(r_, [pool["v"][n] for n in c["vars"]], [pool["f"][n] for n in c["funcs"]]),
+                              vnames=[pool["v"][n] for n in c["vnames"]], fnames=[pool["f"][n] for n in c["fnames"]],
+                              vwhite=c["vwhite"], fwhite=c["fwhite"], final_newline=len(cases) % 5 != 0, src="export"))
         for _ in range(ck.pick(100, 2500)):
             cases.append(random_case(r_, len(cases)))
 
@@ -414,6 +470,8 @@ def run(ck):
         for c in batch:
             defs = dumps[c["id"]]
             text = "".join(d["chunk"] if d["chunk"].endswith("\n") else d["chunk"] + "\n" for d in defs)
+            if not c.get("final_newline", True):
+                text = text[:-1]  # a dump captured with $(...) / .strip(): the last definition has no newline
             c["text"], c["bdefs"] = text, defs
             out = io.BytesIO()
             c["raised"] = ""
@@ -484,6 +542,7 @@ def run(ck):
         got = {(k, n) for k, n, _b in c["rb"]["after"]}
         ck.violation(v["clause"], dict(
             input=c["defs"], vnames=list(c["vnames"]), fnames=list(c["fnames"]), vwhite=c["vwhite"], fwhite=c["fwhite"],
+            final_newline=c.get("final_newline", True),
             dump=c["text"], filtered=c["out"].decode("utf-8", "replace"), raised=c["raised"],
             defined_after=sorted(f"{k}:{n}" for k, n in got), missing_after=sorted(f"{k}:{n}" for k, n in want - got),
             extra=c["rb"]["extra"], source_rc=c["rb"]["rc"], source_output=c["rb"]["output"].decode("utf-8", "replace")[:400],
